@@ -5,7 +5,7 @@
 (* and after each call, judged with exactly the clauses of C12.            *)
 (* Event: [k, name, value, res, kind, vclass, langOk, expect, before,      *)
 (*         after, spB, spA, brB, brA]                                      *)
-(*   kind   - kind of the value stored under name before the call          *)
+(*   kind   - kind of the value stored under name when the session started *)
 (*            ("boolean" | "number" | "string" | "none"), from the hook    *)
 (*   vclass - "bool" | "num" | "other"                                     *)
 (*   expect - the value after the documented normalisations                *)
@@ -49,6 +49,8 @@ SeparatorsRight(e) ==
      /\ e.after["BlockSeparators"] = (IF usePeriod THEN e.blockPeriod ELSE e.blockComma) \o (IF e.swiss = 1 THEN "'" ELSE "")
 Reason(e) ==
   IF e.k = "setmathml" THEN (IF Same(e.before, e.after) THEN "ok" ELSE "set_mathml-changed-a-preference")
+  \* navigation keeps its own state in NavMode (written back after every command); nothing else is its business
+  ELSE IF e.k = "nav" THEN (IF SameExcept(e.before, e.after, {"NavMode"}) THEN "ok" ELSE "navigation-changed-a-preference")
   ELSE IF e.res \notin {"ok", "err"} THEN "no-answer-" \o e.res
   ELSE IF e.res = "ok" /\ ErrRequired(e) THEN "bad-setting-accepted"
   ELSE IF e.res = "err" /\ ~Same(e.before, e.after) THEN "rejected-setting-changed-preferences"
